@@ -428,3 +428,15 @@ _EXTRA = {
 }
 for _k, _t in _EXTRA.items():
     PROPS[_k]["level_note"] = (PROPS[_k].get("level_note", "") + " " + _t).strip()
+
+# ---- the async-trait trait shape (alt build: ractor[async-trait, output-port-v2], no cluster) for the lifecycle properties
+PROPS["C01"]["runs"].append({"engine": "vt", "build": "alt", "quick": 8000, "thorough": 400000,
+                             "what": "E-A on the alt build: the same scenarios with #[async_trait] actors (boxed callback futures)"})
+PROPS["C01"]["runs"].append({"engine": "th", "build": "alt", "quick": 800, "thorough": 50000,
+                             "what": "E-T on the alt build"})
+PROPS["C03"]["runs"].append({"engine": "vt", "build": "alt", "quick": 6276, "thorough": 6276,
+                             "what": "E-A arrival sweep on the alt build (async-trait actors)"})
+PROPS["C04"]["runs"].append({"engine": "vt", "build": "alt", "quick": 536, "thorough": 536,
+                             "what": "E-A fault enumeration on the alt build (async-trait actors)"})
+for _k in ("C01", "C03", "C04"):
+    PROPS[_k]["level_note"] += " The alt-build runs repeat the E-A (and for C01 the E-T) scenarios with the async-trait feature on."
